@@ -53,10 +53,7 @@ func (c *DelegatedFunction) Name() string {
 //   - variantOperations: Variants operations manager.
 // Returns: A calculated function result.
 func (c *DelegatedFunction) Calculate(parameters []*variants.Variant,
-	variantOperations variants.IVariantOperations) (*variants.Variant, error) {
-	var result *variants.Variant
-	var err error
-
+	variantOperations variants.IVariantOperations) (result *variants.Variant, err error) {
 	// Capture calculation error
 	defer func() {
 		if r := recover(); r != nil {
